@@ -71,6 +71,15 @@ CHECKS['C20'] = dict(
    note='Trusted: TLC, CommunityModules, g++; the slot tables are a frozen hand transcription of register.h. The generator side of the '
         'ar/arp clause is covered through the generator clause of C01 (accesses stay in the compared windows).',
    technique='TLA+ spec: exhaustive TLC theorems + TLC trace validation of Set/Get and instruction executions')
+CHECKS['C16'] = dict(
+   text='Exhaustive TLC model checking of the transmit FIFO (Btdmp.tla with ghost input/output history; capacity 4 quick / 6 '
+        'thorough, all periods, every history of send/flush/enable/period/tick/skip within the horizon) decides FIFO order, '
+        'one frame per period, flags, interrupt timing and Skip(k) = Tick^k; random histories on real Btdmp objects in the Teakra '
+        'wiring (direct, MMIO and CoreTiming paths, capacity 16) are validated by TLC against the same operators.',
+   design_ref='5.16',
+   note='Trusted: TLC, CommunityModules, g++; Btdmp.tla as a reading of the property. Full width (capacity 16, 16-bit words, '
+        'period 4096) is covered by trace validation, exhaustive only at the scaled constants.',
+   technique='TLA+ spec + TLC exhaustive model checking + TLC trace validation of recorded executions')
 NOT_YET = {}
 def main():
     props = [json.loads(l)['id'] for l in open(os.path.join(V, 'properties.jsonl'))]
